@@ -53,6 +53,7 @@
 #include <xalanc/PlatformSupport/XSLException.hpp>
 #include <xalanc/DOMSupport/DOMServices.hpp>
 #include <xalanc/DOMSupport/XalanDocumentPrefixResolver.hpp>
+#include <xalanc/PlatformSupport/PrefixResolver.hpp>
 #include <xalanc/XPath/XObject.hpp>
 #include <xalanc/XPath/XObjectFactoryDefault.hpp>
 #include <xalanc/XPath/XPathEnvSupportDefault.hpp>
@@ -251,6 +252,28 @@ static bool hasNull(const MutableNodeRefList& l)
     return false;
 }
 
+// Prefix resolver for the XPath requests: the document's own declarations plus the EXSLT/Xalan extension namespaces
+// (the extension functions are installed globally by XalanTransformer::initialize()).
+class HarnessPrefixResolver : public PrefixResolver
+{
+public:
+    HarnessPrefixResolver(const XalanDocument* doc) :
+        m_inner(doc), m_set("http://exslt.org/sets"), m_exsl("http://exslt.org/common"), m_xalan("http://xml.apache.org/xalan")
+    {
+    }
+    virtual const XalanDOMString* getNamespaceForPrefix(const XalanDOMString& prefix) const
+    {
+        if (prefix == XalanDOMString("set")) return &m_set;
+        if (prefix == XalanDOMString("exsl")) return &m_exsl;
+        if (prefix == XalanDOMString("xalan")) return &m_xalan;
+        return m_inner.getNamespaceForPrefix(prefix);
+    }
+    virtual const XalanDOMString& getURI() const { return m_inner.getURI(); }
+private:
+    XalanDocumentPrefixResolver m_inner;
+    XalanDOMString m_set, m_exsl, m_xalan;
+};
+
 // A XalanNodeList view of a node list (for the XalanNodeList overload).
 class NodeListAdapter : public XalanNodeList
 {
@@ -402,7 +425,7 @@ static std::string handle(const std::string& line)
         if (ctx == 0) return "bad node";
         const XalanDOMString expr(t[2].c_str());
         XalanDocument* const doc = ctx->getNodeType() == XalanNode::DOCUMENT_NODE ? static_cast<XalanDocument*>(ctx) : ctx->getOwnerDocument();
-        const XalanDocumentPrefixResolver resolver(doc);
+        const HarnessPrefixResolver resolver(doc);
         NodeRefList result(XalanMemMgrs::getDefaultXercesMemMgr());
         try
         {
@@ -518,7 +541,7 @@ int main()
             {
                 r = "ERR:dom";
             }
-            std::cout << r << "\n";
+            std::cout << r << "\n" << std::flush;   // a crash must be attributable to its request
         }
         std::cout.flush();
         g.reset();
